@@ -92,6 +92,9 @@ func rerunnerClosures(fn *ssa.Function) []*ssa.Function {
 
 func c17(c *an.Ctx) {
 	p := c.P
+	c.Check("R-LOCK", "handleSubscribe starts the rerunner and stores it in c.subscriptions within one critical section of c.mu, so the close fired by a failing first run finds it (rule shared with C16)", 2, func(o *an.O) {
+		ruleRunnerRegisteredBeforeItCanClose(c, o)
+	})
 	c.Check("R-BOOL", "subscription lifecycle decisions: a subscription ends (closeSubscription) exactly when its first run fails or it is cancelled, a mutation always ends after one run; reruns that fail are retried, not ended (decision tables shared with C16)", 4, func(o *an.O) {
 		ruleHandlerTables(c, o)
 	})
@@ -536,6 +539,9 @@ func envelopesIn(fn *ssa.Function) []envelope {
 
 func c02(c *an.Ctx) {
 	p := c.P
+	c.Check("R-PROV", "the query a subscription or mutation executes is the result of parsing its own message's text with its own variables (no parsed query is carried over from another message)", 2, func(o *an.O) {
+		ruleOwnParsedQuery(c, o)
+	})
 	// handleSubscribe advances `previous` for every delta it hands to writeOrClose, so a delta
 	// may only fail to reach the client if the connection is torn down (the client then
 	// resubscribes and gets a full update)
